@@ -79,7 +79,8 @@ class ElemKind(object):
         if len(self.shapes) > 1:
             t = self.tag(r)
             ctx.assume_raw(z3.And(t >= 0, t < len(self.shapes)))
-            idx = ctx.concretize_int(SInt(t), len(self.shapes) + 1, "element shape")
+            idx = ctx.concretize_int(SInt(t), len(self.shapes) + 1, "element shape",
+                                     domain=range(len(self.shapes)))
         sname, cls, fields = self.shapes[idx]
         o = SObj(cls, has_dict=ctx.has_instance_dict(cls))
         for fname, fld in fields.items():
@@ -113,7 +114,8 @@ class ElemKind(object):
         if len(self.shapes) > 1:
             ctx.assume_raw(self.tag(r) == idx)
         for fname, fld in fields.items():
-            cur = obj.slots.get(fname) if fld.where == "slot" else obj.idict.get(fname)
+            idk = obj.idict.known if isinstance(obj.idict, SymDict) else obj.idict
+            cur = obj.slots.get(fname) if fld.where == "slot" else idk.get(fname)
             self._tie(ctx, r, sname, fname, fld, cur)
         obj.ref = r
         obj.frozen = True
@@ -123,10 +125,12 @@ class ElemKind(object):
     def _fits(self, obj, cls, fields):
         if obj.cls is not cls and not (issubclass(obj.cls, cls) and cls.__name__ != "DiameterAVP"):
             # dictionary subclasses fit the schematic subclass shape (same storage layout)
-            if not (self._is_dict_shape(fields) and obj.idict is not None and "code" in obj.idict):
+            idk = obj.idict.known if isinstance(obj.idict, SymDict) else obj.idict
+            if not (self._is_dict_shape(fields) and idk is not None and "code" in idk):
                 return False
         for fname, fld in fields.items():
-            store = obj.slots if fld.where == "slot" else (obj.idict or {})
+            idk = obj.idict.known if isinstance(obj.idict, SymDict) else (obj.idict or {})
+            store = obj.slots if fld.where == "slot" else idk
             if fname not in store and fld.kind[0] not in ("none", "opt"):
                 return False
         return True
